@@ -64,6 +64,7 @@ type caseJ struct {
 	NProbes  int    `json:"nprobes"`
 	Errors   []int  `json:"errors,omitempty"` // chain: sorted error classes
 	Big      bool   `json:"big,omitempty"`
+	Forced   bool   `json:"forced,omitempty"`
 }
 
 type nestedIPs struct {
@@ -307,7 +308,7 @@ func sortKeys(ks [][]byte) string {
 func mkChain(caseSeed int64, big bool) caseJ {
 	tgt.Settle(baseGoroutines)
 	r := hlib.NewRand(caseSeed)
-	c := caseJ{Kind: "chain", CaseSeed: caseSeed, Seed: r.Int63(), Big: big}
+	c := caseJ{Kind: "chain", CaseSeed: caseSeed, Seed: r.Int63(), Big: big, Forced: forceFilter}
 	c.Cmd = []string{"tcp", "udp", "generic", "generic", "icmp", "arp"}[r.Intn(6)]
 	c.Portless = c.Cmd == "icmp" || c.Cmd == "arp"
 	switch {
@@ -398,7 +399,7 @@ func mkChain(caseSeed int64, big bool) caseJ {
 		opts.PortRanges = rs
 		c.Ranges = tgt.RangesJSON(rs)
 	}
-	if r.Bool() {
+	if r.Bool() || forceFilter {
 		c.Filter = true
 		opts.ExcludeIPs, c.Nets = exclusionAround(r, base, span)
 	}
@@ -471,6 +472,9 @@ func mkChain(caseSeed int64, big bool) caseJ {
 
 var stdinContent string
 
+// forceFilter: every chain case gets an exclusion list (the C02 check drives the chains of all commands this way)
+var forceFilter bool
+
 func exclusionAround(r *hlib.SplitMix64, base uint32, span int) (scan.IPContainer, [][2]int64) {
 	var nets [][2]int64
 	var sb strings.Builder
@@ -507,6 +511,7 @@ func main() {
 	listenPorts := flag.String("listen", "", "internal: accept connections on these ports and log them")
 	sx := flag.String("e2e", "", "end-to-end runs with this sx binary in private network namespaces")
 	ne2e := flag.Int("ne2e", 8, "number of end-to-end runs")
+	flag.BoolVar(&forceFilter, "forcefilter", false, "every chain case has an exclusion list")
 	e2eSet := flag.String("e2eset", "coverage", "coverage | refuse (non-IPv4 targets, for C02)")
 	flag.Parse()
 	if *sniffIf != "" {
@@ -539,7 +544,16 @@ func main() {
 		case "nested":
 			w.Put(mkNested(cs))
 		default:
-			w.Put(mkChain(cs, len(f) > 2 && f[2] == "big"))
+			big := false
+			for _, x := range f[2:] {
+				if x == "big" {
+					big = true
+				}
+				if x == "filter" {
+					forceFilter = true
+				}
+			}
+			w.Put(mkChain(cs, big))
 		}
 		return
 	}
